@@ -240,6 +240,70 @@ pub fn observe(case: &Value) -> Value {
         acc["exposed"] = guard(|| {
             json!(msg.iter_attributes().map(|a| json!({"type": a.get_type().value(), "value": a.value.to_vec(), "len": a.length()})).collect::<Vec<_>>())
         });
+        // every way the standard library may drive the iterator sees the same sequence as repeated next()
+        acc["adaptors"] = guard(|| {
+            let key = |a: &RawAttribute| (a.get_type().value(), a.value.to_vec());
+            let mut plain = Vec::new();
+            let mut it = msg.iter_attributes();
+            while let Some(a) = it.next() {
+                plain.push(key(&a));
+            }
+            let exhausted_again = it.next().is_some();
+            let n = plain.len();
+            let mut bad: Vec<String> = Vec::new();
+            if exhausted_again {
+                bad.push("next() after None yields again".into());
+            }
+            for k in 0..=n + 1 {
+                let mut it = msg.iter_attributes();
+                let got = it.nth(k).map(|a| key(&a));
+                if got != plain.get(k).cloned() {
+                    bad.push(format!("nth({})", k));
+                }
+                let rest: Vec<_> = it.map(|a| key(&a)).collect();
+                if k < n && rest[..] != plain[k + 1..] {
+                    bad.push(format!("after nth({})", k));
+                }
+                let sk: Vec<_> = msg.iter_attributes().skip(k).map(|a| key(&a)).collect();
+                if sk[..] != plain[k.min(n)..] {
+                    bad.push(format!("skip({})", k));
+                }
+                let tk: Vec<_> = msg.iter_attributes().take(k).map(|a| key(&a)).collect();
+                if tk[..] != plain[..k.min(n)] {
+                    bad.push(format!("take({})", k));
+                }
+            }
+            for st in 1..=3usize {
+                let sb: Vec<_> = msg.iter_attributes().step_by(st).map(|a| key(&a)).collect();
+                let want: Vec<_> = plain.iter().step_by(st).cloned().collect();
+                if sb != want {
+                    bad.push(format!("step_by({})", st));
+                }
+            }
+            if msg.iter_attributes().count() != n {
+                bad.push("count()".into());
+            }
+            if msg.iter_attributes().last().map(|a| key(&a)) != plain.last().cloned() {
+                bad.push("last()".into());
+            }
+            if msg.iter_attributes().fold(0usize, |c, _| c + 1) != n {
+                bad.push("fold()".into());
+            }
+            let (lo, hi) = msg.iter_attributes().size_hint();
+            if lo > n || hi.map(|h| h < n).unwrap_or(false) {
+                bad.push(format!("size_hint() = ({}, {:?}) with {} items", lo, hi, n));
+            }
+            for t in [0x0008u16, 0x001c, 0x8028] {
+                let f = msg.iter_attributes().find(|a| a.get_type().value() == t).map(|a| key(&a));
+                if f != plain.iter().find(|x| x.0 == t).cloned() {
+                    bad.push(format!("find({})", t));
+                }
+                if msg.iter_attributes().position(|a| a.get_type().value() == t) != plain.iter().position(|x| x.0 == t) {
+                    bad.push(format!("position({})", t));
+                }
+            }
+            json!(bad)
+        });
         // lookups: every exposed type, the ending types, some absent ones, and whatever the case asks for
         let mut types: Vec<u16> = msg.iter_attributes().map(|a| a.get_type().value()).collect();
         types.extend([0x0008, 0x001c, 0x8028, 0x0006, 0x8022, 0x7777]);
